@@ -2,7 +2,7 @@
 # tools/seedcheck.sh <Cnn> [srcdir]: validate a sub-agent's seeded change and run the checks against it.
 # Reads <srcdir>/_out/{patch.diff,demo_test.go,meta.json} (default /tmp/seed/<Cnn>); writes /verif/seeded/<Cnn>/.
 set -u
-id=$1; src=${2:-/tmp/seed/$id}; out=/verif/seeded/$id; val=/tmp/seedval/$id
+id=$1; src=${2:-/tmp/seed/$id}; name=${3:-$id}; out=/verif/seeded/$name; val=/tmp/seedval/$name
 export GOFLAGS=-mod=mod GOPROXY=off GOSUMDB=off GOTOOLCHAIN=local
 [ -f "$src/_out/patch.diff" ] || { echo "no patch for $id"; exit 2; }
 mkdir -p "$out" /tmp/seedval
